@@ -210,7 +210,10 @@ def judgeSet (o : VerOps) (c : List Nat) (a val : Bytes) (impl : String) : Verdi
           if y != hexB val then v := v.add "C07" s!"Get after Set gives {y}"
         else if x != y then v := v.add "C07" s!"metric {hexB n} changed {x}->{y}"
       if o.wf c && !(o.wf (unhex c')) then v := v.add "C09" "Set left a malformed object"
-  | _ => v := { v with diff := some "BAD-IMPL-LINE" }
+  | _ =>
+    -- Get and Set contain no panic source (Props/NoPanicNN `panic_free`): a panic is a violation on any byte state
+    if impl == "panic" then v := (v.add "C09" "Set panics").add "C07" "Set panics"
+    else v := { v with diff := some "BAD-IMPL-LINE" }
   return v
 
 /-- `G ver obj abv | val err` -/
@@ -224,7 +227,9 @@ def judgeGet (o : VerOps) (c : List Nat) (a : Bytes) (impl : String) : Verdict :
     if e != errValS want then v := v.add (if want.1 == 0 then "C09" else "C18") s!"want err {errValS want}"
     if want.1 != 0 && val != "-" then v := v.add "C09" "value returned for unknown metric"
     if want.1 == 0 && o.wf c && !(Spec.legal ms a (unhex val)) then v := v.add "C09" "illegal value from Get"
-  | _ => v := { v with diff := some "BAD-IMPL-LINE" }
+  | _ =>
+    if impl == "panic" then v := v.add "C09" "Get panics"
+    else v := { v with diff := some "BAD-IMPL-LINE" }
   return v
 
 /-- `O ver obj | vec lenVec gets rt nom` -/
@@ -249,13 +254,20 @@ def judgeObj (o : VerOps) (c : List Nat) (reached : Bool) (impl : String) : Verd
       if o.ver == .v40 then
         let want := Spec.V4.nomenclature (fun a => Spec.valueOf ms w a)
         if nm != hexB want then v := v.add "C16" s!"want {hexB want}"
-    | _ => v := { v with diff := some "BAD-IMPL-LINE" }
+    | _ =>
+      -- Vector / lenVec / Get / Nomenclature / the round trip panicked on a well-formed or API-reached object
+      if impl == "panic" then v := ((v.add "C09" "Vector/Get/Nomenclature panics on a reachable object").add "C02" "Vector panics").add "C17" "Vector panics"
+      else v := { v with diff := some "BAD-IMPL-LINE" }
   return v
 
 /-- `A ver kind a1 a2 a3 | allocs` — the documented allocation budget (README: 0 to 1 allocs/op):
     a successful ParseVector ≤ 1, Vector() = 1, Get/Set on a known metric, scores, Rating, Nomenclature = 0.
     Cost model for Vector(): one `make` with the code's own capacity (`Vector_cap`, regenerated); the appends regrow iff the text is longer. -/
 def judgeAlloc (o : VerOps) (kind a1 a2 a3 : String) (impl : String) : Verdict := Id.run do
+  if impl.toNat?.isNone then
+    return (({} : Verdict).add "C17" s!"the measured operation did not complete: {impl}")
+  if !["vector", "parse", "get", "set", "score", "nomen", "rating"].contains kind then
+    return { diff := some "BAD-OP" }
   let n := impl.toNat!
   let mut v : Verdict := {}
   match kind with
